@@ -499,7 +499,7 @@ where
 
         // Pruner removes already sampled headers and creates gaps in the ranges.
         // Syncer must ignore those gaps.
-        let synced_ranges = pruned_ranges + &store_ranges;
+        let synced_ranges = pruned_ranges.clone() + &store_ranges;
 
         let next_batch = calculate_range_to_fetch(
             subjective_head_height,
@@ -538,7 +538,16 @@ where
                     return Ok(());
                 }
             }
-            Err(StoreError::NotFound) => {}
+            Err(StoreError::NotFound) => {
+                // The header right above the batch was pruned. Pruner removes an
+                // edge of the synced ranges only after it left the sampling
+                // window, so there is nothing to fetch below it. Requesting it
+                // anyway would repeat forever: the batch can not be inserted
+                // because it has no stored neighbour.
+                if pruned_ranges.contains(next_batch.end() + 1) {
+                    return Ok(());
+                }
+            }
             Err(e) => return Err(e.into()),
         }
 
